@@ -121,3 +121,6 @@ func ZZ_C14_reads_then_decode_sparse()  { zzDecodeHistoryOps(1, 3, zzCopyDecodeO
 func ZZ_C04_history_decode_dense()  { zzDecodeHistory(0, 3) }
 func ZZ_C04_history_decode_sparse() { zzDecodeHistory(1, 3) }
 func ZZ_C04_history_decode_pag_4_T() { zzDecodeHistory(2, 4) }
+
+// C02 (round 2): decoding-and-merging into a store that has been read since its last addition
+func ZZ_C02_decode_and_merge_after_reads_pag() { zzDecodeHistoryOps(2, 3, zzReadDecodeOps) }
